@@ -11,7 +11,7 @@ from pathlib import Path
 from bounded.harness import StandIn
 from soundevent import data, io
 
-NAMES = ["a.wav", "with space.wav", "únicode-ß.wav", "dots.in.name.v2.wav", "nested/dir/x.wav"]
+NAMES = ["a.wav", "with space.wav", "únicode-ß.wav", "dots.in.name.v2.wav", "nested/dir/x.wav", " leading space dir/x.wav", "trailing space.wav "]
 
 
 def collections(rec):
@@ -47,7 +47,7 @@ def main():
         for depth in range(4):
             A = Path("/data") if depth == 0 else Path("/data").joinpath(*[f"d{k}" for k in range(depth)])
             B = Path("/mnt/other")
-            for name in NAMES[: 3 if s.tier == "quick" and depth > 1 else 5]:
+            for name in (NAMES[:3] if s.tier == "quick" and depth > 1 else NAMES):
                 for as_str in (False, True):
                     for kind in (True, False, "sibling-with-prefix", "parent"):
                         # outside: unrelated tree; a sibling whose name merely starts with the directory's name; the parent
